@@ -1,5 +1,6 @@
 import ALV.Common.Json
 import ALV.Model.C18
+import ALV.Model.C18Res
 import ALV.Spec.C18
 namespace ALV.Driver.C18
 open ALV ALV.J ALV.C18
@@ -53,6 +54,67 @@ def kindOf : List (Sample Rat) → String
   | .raw _ :: _ => "int"
   | .scaled _ :: _ => "float"
 
+def handleJson (h : Handle) : Json :=
+  Json.mkObj [("owner", Json.str (match h.owner with | .stream => "stream" | .caller => "caller")),
+    ("open", Json.bool h.isOpen), ("closes", natToJson h.closeCalls), ("abandoned", Json.bool h.abandoned)]
+
+def obsJson : Option (Obs (Sample Rat) WavErr) → Json
+  | none => Json.null
+  | some (.item b) => Json.mkObj [("item", sampleJson b)]
+  | some .stop => Json.str "stop"
+  | some (.raised e) => Json.str (wavErr e)
+
+def sourceOf (s : String) : Except String Source :=
+  match s with
+  | "name" => pure .name | "fileobj" => pure .fileObj | "memory" => pure .memory
+  | "refused" => pure .refusedName
+  | _ => throw s!"bad source {s}"
+
+def evOf (s : String) : Except String Ev :=
+  match s with
+  | "n" => pure .next | "c" => pure .collect
+  | _ => throw s!"bad event {s}"
+
+/-- the life-cycle machine for one way of handing the file over -/
+def resRun (j : Json) (src : Source) : Except String Json := do
+  let bits ← getNat (← field j "bits")
+  let channels ← getNat (← field j "channels")
+  let rate ← getNat (← field j "rate")
+  let keep ← getBool (← field j "keep")
+  let data ← getBytes (← field j "data")
+  let hok ← getBool (← field j "header_ok")
+  let npre ← getNat (← field j "pre")
+  let evs ← getList (fun e => do evOf (← getStr e)) (← field j "events")
+  let f : WavFile := ⟨channels, headerSampwidth bits, rate, data⟩
+  let o : WavObs Rat := wavStream f keep
+  let g := o.gen
+  let early := decide (g.err = some WavErr.noUnpacker)
+  let pre := List.replicate npre (Handle.fresh .caller)
+  match construct src hok pre with
+  | .error hs => pure <| Json.mkObj [("open", Json.str "error"), ("handles", arr handleJson hs)]
+  | .ok s0 =>
+    let tr := rTrace g early evs s0
+    let k := (evs.filter (· == Ev.next)).length
+    pure <| Json.mkObj [("open", Json.str "ok"), ("early", Json.bool early),
+      ("handles", arr handleJson s0.handles), ("fp", Json.bool s0.wr.fp),
+      ("trace", arr (fun (p : Option (Obs (Sample Rat) WavErr) × RS) =>
+          Json.mkObj [("obs", obsJson p.1), ("fp", Json.bool p.2.wr.fp), ("handles", arr handleJson p.2.handles)]) tr),
+      -- the closed form of theorem res_next_values, for histories made of next() calls only
+      ("expect", if evs.all (· == Ev.next) then arr (fun x => obsJson (some x)) (expectObs g k) else Json.null),
+      ("kind", Json.str (kindOf g.out)),
+      ("hdr", Json.mkObj [("rate", natToJson o.rate), ("channels", natToJson o.channels), ("bits", natToJson o.bits)])]
+
+/-- `res`: the file life-cycle machine run over the value model's own `Gen`; `alt_source` asks for a
+    second prediction (a name kind the code may accept or refuse: both answers are given) -/
+def handleRes (j : Json) : Except String Json := do
+  let src ← sourceOf (← getStr (← field j "source"))
+  let main ← resRun j src
+  match optField j "alt_source" with
+  | none => pure main
+  | some a => do
+    let alt ← resRun j (← sourceOf (← getStr a))
+    pure <| Json.mkObj [("main", main), ("alt", alt)]
+
 /-- one generator alone: the chunk generators of one `chunks(...)` call, or one `WavStream` -/
 def handle1 (entry : String) (j : Json) : Except String Json := do
   match entry with
@@ -79,7 +141,7 @@ def handle1 (entry : String) (j : Json) : Except String Json := do
     let rate ← getNat (← field j "rate")
     let keep ← getBool (← field j "keep")
     let data ← getBytes (← field j "data")
-    let f : WavFile := ⟨channels, bits / 8, rate, data⟩
+    let f : WavFile := ⟨channels, headerSampwidth bits, rate, data⟩
     let o : WavObs Rat := wavStream f keep
     let base := [
       ("model", Json.mkObj [("out", arr sampleJson o.gen.out),
@@ -96,7 +158,7 @@ def handle1 (entry : String) (j : Json) : Except String Json := do
                 ("enc", bytesJson (pcmData bits samples))])]
     let w := bits / 8
     let anyPart :=
-      if (channels = 1 ∨ channels = 2) ∧ w ≠ 0 ∧ data.length % (w * channels) = 0 then
+      if (channels = 1 ∨ channels = 2) ∧ bits % 8 = 0 ∧ w ≠ 0 ∧ data.length % (w * channels) = 0 then
         let sp : List (Sample Rat) := wavSpec bits keep ((splitEvery w data).map (storedValue bits))
         [("spec_any", Json.mkObj [("out", arr sampleJson sp), ("kind", Json.str (kindOf sp))])]
       else []
@@ -110,6 +172,7 @@ def handle1 (entry : String) (j : Json) : Except String Json := do
         pure [("lazy", Json.mkObj [("taken", natToJson r.1.length), ("closed", Json.bool r.2.closed),
                 ("spec_taken", natToJson (min k n)), ("spec_closed", Json.bool (closedAfter n k))])]
     pure <| Json.mkObj (base ++ specPart ++ anyPart ++ lazyPart)
+  | "res" => handleRes j
   | _ => throw s!"C18: unknown entry {entry}"
 
 /-- `conc`: several generators alive at once.  The model has no shared state: every generator is
